@@ -704,6 +704,8 @@ pub fn run(ctx: &Ctx) -> Report {
     for (h, bound) in &hs {
         let (stats, outcomes, viols) = sched::explore(*bound, |p| swap_exec(h, p), &|| ctx.over_cap());
         rep.add("schedules_executed", stats.schedules);
+        rep.add("schedules_reexecuted_for_determinism", stats.reexecuted);
+        rep.add("schedule_reexecutions_diverged", stats.diverged);
         rep.add("distinct_schedule_outcomes", outcomes.len() as u64);
         if !stats.complete {
             rep.set("exhaustive", false);
